@@ -13,6 +13,7 @@ pub static META: Meta = Meta {
     rule: "generated programs biased to the partitioned execution path (single-atom bodies, filters, projections creating duplicates, computed columns, aggregates, multi-rule programs) x EDB, executed with num_workers in {1,2,3,4,8}; every multi-worker outcome is compared with the single-worker outcome; non-trivial = single-worker answer non-empty; distinct = program text + EDB",
     assumptions: &["set_num_workers is the user-visible knob (Config.storage.performance.num_threads feeds the same field)"],
     floor: 20,
+    watchdog: (0, 0),
 };
 
 const WORKERS: [usize; 4] = [2, 3, 4, 8];
